@@ -95,6 +95,16 @@ class SeedWalk(Harness):
         return dict(cov=c, tx=tx, ty=ty)
 
     @classmethod
+    def native_variants(cls, ins):
+        # solver models tend to sit exactly on tile edges / inset boundaries where the exact-arithmetic
+        # rounding model and IEEE doubles may decide a tie differently: also try nearby coverages
+        import itertools
+        c = ins['cov']
+        for d in (0.37, 3.7, 37.0):
+            for sg in itertools.product((-1, 1), repeat=4):
+                yield dict(ins, cov=[c[i] + sg[i] * d for i in range(4)])
+
+    @classmethod
     def prop(cls, ctx, cfg, cov, tx, ty):
         g, G, seeder, covm = ctx['g'], ctx['G'], ctx['seeder'], ctx['cov']
         levels, meta, tl = list(cfg['levels']), tuple(cfg['meta']), cfg['target_level']
